@@ -552,6 +552,76 @@ theorem linked_prefix {S : Ver → Ver → Prop} : ∀ (p q : Path) (a : Ver), q
     subst h1
     exact ⟨hl.1, linked_prefix rs qs _ h2 hl.2⟩
 
+/-- `ExtractAPIVersions` keeps what it has collected and collects the version of every object -/
+theorem extractVersions_foldl_mem (objs : List Obj) : ∀ (acc : List Ver),
+    (∀ v ∈ acc, v ∈ objs.foldl (fun acc o => if acc.contains o.ver then acc else acc ++ [o.ver]) acc) ∧
+    (∀ o ∈ objs, o.ver ∈ objs.foldl (fun acc o => if acc.contains o.ver then acc else acc ++ [o.ver]) acc) := by
+  induction objs with
+  | nil => intro acc; exact ⟨fun v hv => hv, fun o ho => by simp at ho⟩
+  | cons x xs ih =>
+    intro acc
+    simp only [List.foldl_cons]
+    obtain ⟨h1, h2⟩ := ih (if acc.contains x.ver then acc else acc ++ [x.ver])
+    have hx : x.ver ∈ (if acc.contains x.ver then acc else acc ++ [x.ver]) := by
+      by_cases hc : acc.contains x.ver = true
+      · simp only [hc, if_true]; exact List.contains_iff_mem.1 hc
+      · rw [if_neg hc]; exact List.mem_append_right _ (List.mem_singleton.2 rfl)
+    refine ⟨fun v hv => h1 v ?_, fun o ho => ?_⟩
+    · by_cases hc : acc.contains x.ver = true
+      · rw [if_pos hc]; exact hv
+      · rw [if_neg hc]; exact List.mem_append_left _ hv
+    · rcases List.mem_cons.1 ho with rfl | ho
+      · exact h1 _ hx
+      · exact h2 o ho
+
+/-- every object's apiVersion is among the versions `ExtractAPIVersions` reports -/
+theorem extractVersions_mem {objs : List Obj} {o : Obj} (h : o ∈ objs) : o.ver ∈ extractVersions objs :=
+  (extractVersions_foldl_mem objs []).2 o h
+
+/-- the handler's test "the versions of the output are exactly [desired]" means: every object, one by
+one, is at the desired version -/
+theorem extractVersions_single {objs : List Obj} {v : Ver} (h : extractVersions objs = [v]) :
+    objs.all (fun o => o.ver == v) = true := by
+  simp only [List.all_eq_true, beq_iff_eq]
+  intro o ho
+  have := extractVersions_mem ho
+  rw [h] at this
+  simpa using this
+
+/-- `ExtractAPIVersions` on the raw objects (a fresh `TypeMeta` per object) is `extractVersions` on the
+decoded objects: `null`, `{}` and objects without `apiVersion` count as the empty version wherever
+they stand -/
+theorem extractVersionsRaw_eq (raws : List RawObj) :
+    extractVersionsRaw raws = extractVersions (raws.map RawObj.decode) := by
+  unfold extractVersionsRaw extractVersions
+  rw [List.foldl_map]
+  congr 1
+  funext acc o
+  cases o with
+  | null => rfl
+  | obj id v => cases v <;> rfl
+
+/-- an object that decodes to a non-empty version carries that `apiVersion` itself -/
+theorem decode_ver_eq {o : RawObj} {v : Ver} (hv : v ≠ []) (h : o.decode.ver = v) :
+    ∃ id, o = .obj id (some v) := by
+  cases o with
+  | null => exact absurd h.symm hv
+  | obj id w =>
+    cases w with
+    | none => exact absurd h.symm hv
+    | some w => exact ⟨id, by simp [RawObj.decode] at h; rw [h]⟩
+
+/-- the handler's test on a raw hook answer: "the versions are exactly [desired]" holds only if every
+element is a JSON object with `apiVersion: desired` — no `null`, `{}`, version-less or older object in
+any position -/
+theorem extractVersionsRaw_single {raws : List RawObj} {v : Ver} (hv : v ≠ [])
+    (h : extractVersionsRaw raws = [v]) : ∀ o ∈ raws, ∃ id, o = .obj id (some v) := by
+  intro o ho
+  rw [extractVersionsRaw_eq] at h
+  have hall := extractVersions_single h
+  simp only [List.all_eq_true, beq_iff_eq] at hall
+  exact decode_ver_eq hv (hall _ (List.mem_map_of_mem ho))
+
 /-- what the way the inner loop ended says about the outcome of the last hook run -/
 def EndOK (desired : Ver) : PathEnd → List Obj → Option HookOut → Prop
   | .done, o, lo => lo = some (.resp "" o) ∧ extractVersions o = [desired]
@@ -675,7 +745,8 @@ theorem apply_path (links : Rule → Bool) (script : Script) (rules : List Rule)
   | done =>
     obtain ⟨hlo, hver⟩ := h4
     by_cases hlen : objs.length = o.length
-    · simp [replyOf, review, hlen, hlo, HookOut.okOut, hver]
+    · have hall := extractVersions_single hver
+      simp [replyOf, review, hlen, hlo, HookOut.okOut, hver, hall]
     · simp [replyOf, review, hlen, hlo]
   | exhausted =>
     simp only [replyOf, review]
@@ -742,6 +813,59 @@ theorem apply_chain (ord : Order) (links : Rule → Bool) (script : Script) (rul
     exact apply_path links script rules desired a objs p hv hc.declared hc.linked
   | notFound => simp [applyCheck, hv, linkedB, pipeCheck, lastOutcome]
   | outOfFuel => simp [applyCheck, hv, linkedB, pipeCheck, lastOutcome]
+
+/-- what `applyCheck` (the predicate of the `oracle e2e` line) demands of a `Success`: as many objects
+as were requested, every one of them at the desired apiVersion, and they are the output of a last run
+that succeeded -/
+theorem applyCheck_success {rules : List Rule} {desired : Ver} {objs : List Obj} {script : Script}
+    {inv : List Invocation} {robjs : List Obj}
+    (h : applyCheck rules desired objs script inv (.success robjs) = none) :
+    robjs.length = objs.length ∧ (∀ o ∈ robjs, o.ver = desired) ∧
+      (lastOutcome script 0 inv).bind HookOut.okOut = some robjs := by
+  unfold applyCheck at h
+  simp only at h
+  split at h
+  · exact absurd h (by simp)
+  · split at h
+    · exact absurd h (by simp)
+    · split at h
+      · exact absurd h (by simp)
+      · split at h
+        · exact absurd h (by simp)
+        · rename_i o hlo
+          split at h
+          · exact absurd h (by simp)
+          · rename_i out hout
+            split at h
+            · exact absurd h (by simp)
+            · rename_i hro
+              split at h
+              · exact absurd h (by simp)
+              · rename_i hlen
+                split at h
+                · exact absurd h (by simp)
+                · split at h
+                  · exact absurd h (by simp)
+                  · rename_i hall
+                    refine ⟨by simpa using hlen, ?_, ?_⟩
+                    · simp only [Bool.not_eq_true, Bool.not_eq_false', ] at hall
+                      simpa [List.all_eq_true] using hall
+                    · have : robjs = out := by simpa using hro
+                      rw [hlo, this]; simpa using hout
+
+/-- **C15.4c (`success_objects_converted`): `Success` means every object was converted.** Whatever the
+hooks hand back — `null`, `{}`, objects without apiVersion or left at an older version, in any
+position, at any step — the answer is `Success` only with as many objects as were requested and every
+returned object, one by one, at the desired apiVersion. -/
+theorem success_objects_converted (ord : Order) (links : Rule → Bool) (script : Script)
+    (rules history : List Rule) (desired a : Ver) (objs robjs : List Obj)
+    (hv : extractVersions objs = [a]) (hU : Coherent (a :: desired :: versionsOf rules))
+    (h : (convert ord links script (afterQueries ord (Chain.ofRules rules) history) desired objs).1
+      = .success robjs) :
+    robjs.length = objs.length ∧ ∀ o ∈ robjs, o.ver = desired := by
+  have := apply_chain ord links script rules history desired a objs hv hU
+  rw [h] at this
+  exact ⟨(applyCheck_success this).1, (applyCheck_success this).2.1⟩
 
 /-! ## C15.4b served whenever a chain exists: a `Failed` needs a reason -/
 
@@ -982,6 +1106,35 @@ example : servedCheck twoStep (fun _ => true) (V "g.io/v3") objsV1 (fun _ _ _ =>
     [⟨R "v1" "v2", objsV1⟩] (.failed .hookFailed) = none := by decide
 example : servedCheck twoStep (fun _ => true) (V "g.io/v0") objsV1 okScript [] (.failed .notSuccessful) = none := by
   decide
+
+private def objs3 : List Obj := [⟨1, V "g.io/v1"⟩, ⟨2, V "g.io/v1"⟩, ⟨3, V "g.io/v1"⟩]
+/-- the last step hands back the middle object without apiVersion (`[]` = the empty version) -/
+private def holeScript : Script :=
+  fun i _ inp => .resp "" (inp.map fun o =>
+    ⟨o.id, if i = 0 then V "g.io/v2" else if o.id = 2 then [] else V "g.io/v3"⟩)
+private def holeInv : List Invocation :=
+  [⟨R "v1" "v2", objs3⟩, ⟨R "g.io/v2" "v3", [⟨1, V "g.io/v2"⟩, ⟨2, V "g.io/v2"⟩, ⟨3, V "g.io/v2"⟩]⟩]
+
+/-- `success_objects_converted` is not vacuous: the model answers `Failed` when the last step leaves one
+object (here the middle one) without apiVersion, and `applyCheck` rejects a `Success` carrying that
+output (what a handler that judges the output by the versions of the other objects would answer) … -/
+theorem unconverted_object_witness :
+    convert Order.ident (fun _ => true) holeScript (Chain.ofRules twoStep) (V "g.io/v3") objs3
+      = (.failed .notSuccessful, holeInv) ∧
+    applyCheck twoStep (V "g.io/v3") objs3 holeScript holeInv
+      (.success [⟨1, V "g.io/v3"⟩, ⟨2, []⟩, ⟨3, V "g.io/v3"⟩])
+      = some "success-though-a-returned-object-is-not-at-the-desired-version" := by decide
+
+/-- the zero value per object matters: with one `TypeMeta` shared by all objects a `null` or a
+version-less object after a converted one would pass for converted -/
+theorem shared_decode_witness :
+    extractVersionsRaw [.obj 1 (some (V "g.io/v3")), .null, .obj 3 none] = [V "g.io/v3", []] ∧
+    extractVersionsShared [.obj 1 (some (V "g.io/v3")), .null, .obj 3 none] = [V "g.io/v3"] := by decide
+
+/-- … while the `Success` of a run in which every object was converted is accepted -/
+example : applyCheck twoStep (V "g.io/v3") objsV1 okScript
+    [⟨R "v1" "v2", objsV1⟩, ⟨R "g.io/v2" "v3", [⟨1, V "g.io/v2"⟩, ⟨2, V "g.io/v2"⟩]⟩]
+    (.success [⟨1, V "g.io/v3"⟩, ⟨2, V "g.io/v3"⟩]) = none := by decide
 
 /-! ### the four repaired defects: the unrepaired variants violate the property -/
 
